@@ -73,6 +73,10 @@ SPECIAL = [
     ('described-auto-shift', ['x = Int(1)', "bits = Int(2).shift(1).describe(Auto(lambda pkt: len(pkt.a) * 8))", 'a = Data(bits // 8).aligned(2)'], ''),
     ('described-class-align', ['x = Int(1)', "bits = Int(1).describe(Auto(lambda pkt: len(pkt.a) * 8))", 'a = Data(bits // 8)'], 'ALIGN'),
     ('described-at', ["length = Int(1).describe(AutoLength('a')).at(1)", 'a = Data(length)', 'z = Int(2)'], ''),
+    # several described fields in one class (every sync hook runs, in both code paths), the tracked data changed after parsing
+    ('described-two', ["la = Int(1).describe(AutoLength('a'))", "lb = Int(1).describe(AutoLength('b'))", 'a = Data(la)', 'b = Data(lb)'], ''),
+    ('described-three', ["la = Int(1).describe(AutoLength('a'))", 'x = Int(1)', "bits = Int(1).describe(Auto(lambda pkt: len(pkt.b) * 8))",
+                         "lc = Int(2).describe(AutoLength('c'))", 'a = Data(la)', 'b = Data(bits // 8)', 'c = Data(lc)'], ''),
     ('embed', ['pt = Ref(Pt(x=1, y=2), embed=True)', 'z = Int(1)'], mk.class_src('Pt', ['x = Int(1)', 'y = Int(2, endianness="little")'])),
     ('embed-mid', ['m = Data(until_marker=b"\\x00")', 'pt = Ref(Pb(), embed=True)', 'z = Int(2)'],
      mk.class_src('Pb', ['p = Bits(4)', 'q = Bits(4)', 'n = Int(1)', 'd = Data(n)'])),
@@ -192,13 +196,15 @@ def pack_outcome(p):
         return ('exception', type(e).__name__)
 
 
-def ill_values(v):
+def ill_values(v, f=None):
     if isinstance(v, bool):
         return []
     if isinstance(v, int):
         return [-1, 255, 256, 65535, 65536, 2 ** 24, 2 ** 32, -2 ** 15 - 1, 2 ** 64, None, 'x', 1.5]
     if isinstance(v, bytes):
-        return [None, 5]
+        # (two well-typed changes of length first: described lengths must follow in both code paths)
+        # (a constant-size Data only has values of that size: other lengths are outside the declared type and stay out)
+        return ([v + b'yz', v[:-1]] if f is not None and not getattr(f, 'is_fixed', True) else []) + [None, 5]
     return []
 
 
@@ -299,7 +305,7 @@ def check_spec(spec, st, tier, only=None):
                         cur = getattr(p0, nm)
                     except Exception:
                         continue
-                    for bad in ill_values(cur):
+                    for bad in ill_values(cur, f):
                         res = []
                         for K in classes:
                             q = K.unpack(raw)
